@@ -69,7 +69,22 @@ RULE = ('surface cases = (record of 1..400 samples (lengths 1,2,3 and around eve
         'one object, and for put / join / join_sig / trim_to_length; edges: fractional delays within 1e-9..1e-3 of a whole '
         'sample on either side, delays of 1e-9..1e-3 of a step, delays and start lags of 1.5..20 record durations, stt within '
         '1e-9..1e-3 of a multiple of dt, reductions within 1e-9..1e-3 of 0 and of 1, exactly 0, above 1; silent (all-zero) and '
-        'strictly one-signed records / values as float64, float32, int, list, int list, tuple.')
+        'strictly one-signed records / values as float64, float32, int, list, int list, tuple. Audit round 5 (checklist 28-33): '
+        'scalar forms of EVERY numeric argument, drawn per case and used by all blocks above: step of the signal as python float / '
+        'int / np.float64 / np.int64 / np.float32 / 0-d float and int arrays, stt as float / int / np.float64 / np.int64 / np.float32 '
+        '/ 0-d arrays, single travel times also as np.int8..np.int64 / np.uint8 / np.uint16 / np.float32 scalars, reductions also as '
+        'np.int64 / np.int32 / bool / np.bool_ one, nodal / trim / start also as 0-d bool arrays; trim_to_length called with npts as '
+        'int / np.int64 / 0-d array, dt / s2s_travel_time / flags in the same forms; Signal / AccSignal of join_sig built with those '
+        'step forms (float32 scalars only where every quotient is exact: dyadic step, stt a whole number of steps). 0-d arrays are '
+        'mutable: snapshotted at call entry and compared afterwards, also on the exception path (0-d travel times / reductions are '
+        'refused by the library: driven as refused calls followed by a valid call). bool-dtype records (ndarray and list of bools; '
+        'silent all-False, one-signed all-True) through every block, bool values for put / join / join_sig (also in the exhaustive '
+        'block). Travel-time sets that are only zeros ([0], [0.0], 0, [0, 0]) at nodal AND anti-nodal surfaces. User-given settings '
+        '(smoothing frequencies above the Nyquist frequency through the constructor / the range keyword / the setter, response '
+        'periods below 2 dt, as ndarray / list / tuple) read back after each of the three surface functions and the join on one '
+        'object in the cache states cold / smooth / rs / fa / vel. Ownership of results: every cell of a first result overwritten, '
+        'the same call repeated (same argument objects; fresh or the same signal object) for the three surface functions, put, '
+        'join, join_sig, trim_to_length.')
 ASSUMPTIONS = ['finite real records, dt > 0, travel times >= 0, stt >= 0',
                'reductions are both scalars or both sequences with one entry per travel time (list-typed, 0-d and mixed '
                'reductions and 0-d travel times are rejected by the library: no value to judge; a list / tuple of factors that a '
@@ -106,6 +121,15 @@ ASSUMPTIONS = ['finite real records, dt > 0, travel times >= 0, stt >= 0',
                'complex-typed records (fas2signal) are counted, not judged; their real part is judged',
                'returned arrays must not share memory with any argument (trim_to_length without trim/start returns its '
                'argument by design and is exempt)',
+               'scalar forms: a numeric argument has the value float(arg) / bool(arg) whatever its scalar type; np.float32 steps, '
+               'stt and single travel times are driven only where every quotient is exact (numpy evaluates python-float / '
+               'np.float32 in float32). The step of a signal is what .dt reads at call entry (a 0-d array is snapshotted)',
+               'checklist item 33 does not apply: the oracle knows ONE convention (whole-sample delays include the first and last '
+               'record sample; placement by floor) and decides every exactly representable quotient strictly; alternatives exist '
+               'only for a quotient whose binary64 evaluation is within 16 ulps of, and not equal to, an integer, and only for the '
+               'boundary samples that are non-zero (a record with zero ends has a single admissible result)',
+               'settings of a signal object (smoothing frequencies, response periods, label) are not mentioned by the statement; '
+               'that an analysis leaves them alone is judged as part of argument purity',
                'oracle vf/oracles/surface.py is correct']
 EXHAUSTIVE = {'quick': 'put_array_in_2d_array: all shift vectors over {-3..3} of length 1..3 x n in {1,2,4} x clip in '
                        '{none,start,end,both}; join_values_w_shifts: all vectors over {0..3} of length 1..3 x n x {add,sub}',
@@ -131,7 +155,9 @@ MIN_EVALS = {'quick': {'energy==oracle': 15000, 'cum==oracle': 8800, 'cum==cumsu
                        'copy.result==fresh(own values)': 1600, 'copy.unmutated-side-keeps-record': 200,
                        'assign.record-old-or-new(completely)': 200, 'assign.result==fresh(own values)': 650,
                        'after-raise.record-consistent': 240, 'after-raise.result==fresh(own values)': 800,
-                       'purity.arguments-unchanged-after-raise': 450, 'third-call==first(A;B;A)': 480},
+                       'purity.arguments-unchanged-after-raise': 450, 'third-call==first(A;B;A)': 480,
+                       'purity.scalar-arguments-unchanged(0-d arrays)': 23000, 'settings-unchanged-after-analysis': 500,
+                       'result-owned(overwritten;call-again==first)': 320},
              'thorough': {'energy==oracle': 270000, 'cum==oracle': 158400, 'cum==cumsum|d(observed energy)|': 158400,
                           'cum.non-decreasing': 158400, 'cum.zero@tau0-nodal': 21600,
                           'cum.scales-alpha^2(pow2,exact)': 14400, 'cum.scales-alpha^2(tol)': 14400,
@@ -153,7 +179,9 @@ MIN_EVALS = {'quick': {'energy==oracle': 15000, 'cum==oracle': 8800, 'cum==cumsu
                           'copy.result==fresh(own values)': 26000, 'copy.unmutated-side-keeps-record': 3400,
                           'assign.record-old-or-new(completely)': 3500, 'assign.result==fresh(own values)': 11000,
                           'after-raise.record-consistent': 4000, 'after-raise.result==fresh(own values)': 12900,
-                          'purity.arguments-unchanged-after-raise': 14800, 'third-call==first(A;B;A)': 8000}}
+                          'purity.arguments-unchanged-after-raise': 14800, 'third-call==first(A;B;A)': 8000,
+                          'purity.scalar-arguments-unchanged(0-d arrays)': 400000, 'settings-unchanged-after-analysis': 8000,
+                          'result-owned(overwritten;call-again==first)': 5500}}
 CTX = None
 _INNER = {'active': False, 'energy': None}
 
@@ -190,8 +218,12 @@ def _tt_container(tt):
     if isinstance(tt, np.ndarray):
         return _array_form(tt)
     if not hasattr(tt, '__len__'):
-        if isinstance(tt, (bool, int, np.integer)):
+        if isinstance(tt, np.integer):
+            return 'npint:' + tt.dtype.name
+        if isinstance(tt, (bool, int)):
             return 'pyint'
+        if isinstance(tt, np.float32):
+            return 'npf32'
         return 'npfloat' if isinstance(tt, np.floating) else 'scalar'
     if isinstance(tt, tuple):
         return 'tuple'
@@ -204,9 +236,11 @@ def _tt_container(tt):
 def _red_form(r):
     if isinstance(r, np.ndarray):
         return _array_form(r)
-    if isinstance(r, np.floating):
+    if isinstance(r, (np.floating, np.integer, np.bool_)):
         return 'np.' + r.dtype.name
-    return 'int' if isinstance(r, (int, np.integer)) else 'float'
+    if isinstance(r, bool):
+        return 'bool'
+    return 'int' if isinstance(r, int) else 'float'
 
 
 def _as_form(arr, form):
@@ -236,8 +270,11 @@ def _wit_surface(fn, p, **extra):
                                 'rec_readonly': not np.asarray(a.values).flags.writeable}
     d = {'fn': fn, 'values': np.asarray(a.values), 'dt': float(a.dt), 'travel_times': np.atleast_1d(np.asarray(p['travel_times'])),
          'tt_container': forms['tt'], 'red_form': forms['red'], 'rec_readonly': forms['rec_readonly'],
-         'nodal': p['nodal'], 'up_red': p['up_red'],
-         'down_red': p['down_red'], 'stt': p['stt'], 'trim': p['trim'], 'start': p['start'],
+         'dt_form': forms.get('dt', _scalar_form(a.dt)), 'stt_form': forms.get('stt', _scalar_form(p['stt'])),
+         'bool_form': forms.get('flag', _flag_form(p['nodal'])),
+         'nodal': _plain_num(p['nodal'], bool), 'up_red': p['up_red'],
+         'down_red': p['down_red'], 'stt': _plain_num(p['stt']), 'trim': _plain_num(p['trim'], bool),
+         'start': _plain_num(p['start'], bool),
          'same_red_object': bool(p.get('same_red_object', p['up_red'] is p['down_red'] and isinstance(p['up_red'], np.ndarray)))}
     d.update(extra)
     return d
@@ -397,6 +434,74 @@ def _same_bits(a, b):
     return a.dtype == b.dtype and a.shape == b.shape and a.tobytes() == b.tobytes()
 
 
+def _scalar_form(v):
+    """Name of the scalar form of a numeric argument (round 5: python / numpy scalars, MUTABLE 0-d arrays)."""
+    if isinstance(v, np.ndarray):
+        return '0di' if v.dtype.kind in 'iu' else '0d'
+    if isinstance(v, np.bool_):
+        return 'np'
+    if isinstance(v, bool):
+        return 'bool'
+    if isinstance(v, np.floating):
+        return 'np32' if v.dtype == np.float32 else 'np'
+    if isinstance(v, np.integer):
+        return 'npint'
+    return 'int' if isinstance(v, int) else 'float'
+
+
+def _flag_form(v):
+    if isinstance(v, np.ndarray):
+        return '0d'
+    if isinstance(v, np.bool_):
+        return 'np'
+    return 'bool' if isinstance(v, bool) else 'int'
+
+
+def _scalar_arg(v, form):
+    """The value v in the scalar form `form`; forms that cannot hold v exactly fall back to the python float."""
+    f = float(v)
+    if form == '0d':
+        return np.array(f)
+    if form == 'np':
+        return np.float64(f)
+    if form == 'np32' and float(np.float32(f)) == f:
+        return np.float32(f)
+    if form in ('int', 'npint', '0di') and f == int(f) and abs(f) < 2.0 ** 53:
+        return int(f) if form == 'int' else (np.int64(int(f)) if form == 'npint' else np.array(int(f)))
+    return f
+
+
+def _f32_exact(v):
+    with np.errstate(over='ignore'):
+        return float(np.float32(v)) == float(v)
+
+
+def _f32_scalars_ok(c):
+    """np.float32 forms of the step / stt stay inside the range of validity of the monitor: numpy evaluates python-float /
+    np.float32 in float32, so the step, stt and their quotient must all be float32 numbers (then the float32 quotient IS the
+    binary64 one). Decided per call: variants of a case (edges, A;B;A) change stt or the step afterwards."""
+    dt, stt = float(c['dt']), float(c['stt'])
+    return _f32_exact(dt) and _f32_exact(stt) and _f32_exact(stt / dt)
+
+
+def _scalar_same(now, before):
+    """A scalar argument is what it was: 0-d arrays bit for bit (they are mutable), other scalars by type and value."""
+    if isinstance(before, np.ndarray):
+        return isinstance(now, np.ndarray) and _same_bits(now, before)
+    return now is before or (type(now) is type(before) and bool(now == before))
+
+
+def _plain_num(v, conv=float):
+    try:
+        return conv(v)
+    except Exception:
+        return repr(v)
+
+
+SCALAR_CLAUSE = 'purity.scalar-arguments-unchanged(0-d arrays)'
+_SCAL_NAMES = ('stt', 'nodal', 'trim', 'start')
+
+
 def _arg_unchanged(now, before):
     if isinstance(before, np.ndarray):
         return isinstance(now, np.ndarray) and _same_bits(now, before)
@@ -410,13 +515,15 @@ def _snap_args(args, kwargs):
     """pre-state: bit copies of every array argument as handed in (one object may serve several parameters)."""
     p = _parse(args, kwargs, _SURF_NAMES, _SURF_DEF)
     a, u, d, tt = p['asig'], p['up_red'], p['down_red'], p['travel_times']
-    return {'x': np.array(a.values), 'dt': a.dt, 'tt': _copy_arg(tt),
+    return {'x': np.array(a.values), 'dt': _copy_arg(a.dt), 'tt': _copy_arg(tt),
+            'scal': dict((nm, p[nm].copy()) for nm in _SCAL_NAMES if isinstance(p[nm], np.ndarray)),
             'up': u.copy() if isinstance(u, np.ndarray) else None,
             'down': d.copy() if isinstance(d, np.ndarray) else None, 'same': u is d and isinstance(u, np.ndarray),
             'up_seq': _copy_arg(u) if isinstance(u, (list, tuple)) else None,
             'down_seq': _copy_arg(d) if isinstance(d, (list, tuple)) else None,
             'forms': {'tt': _tt_container(tt), 'red': _red_form(u),
-                      'rec_readonly': isinstance(a.values, np.ndarray) and not a.values.flags.writeable}}
+                      'rec_readonly': isinstance(a.values, np.ndarray) and not a.values.flags.writeable,
+                      'dt': _scalar_form(a.dt), 'stt': _scalar_form(p['stt']), 'flag': _flag_form(p['nodal'])}}
 
 
 def _check_purity(fn, p, snap):
@@ -424,6 +531,7 @@ def _check_purity(fn, p, snap):
     before = dict(p, asig=_Rec(snap['x'], snap['dt']), travel_times=snap['tt'],
                   up_red=snap['up'] if snap['up'] is not None else p['up_red'],
                   down_red=snap['down'] if snap['down'] is not None else p['down_red'], _forms=snap['forms'])
+    before.update(snap['scal'])
     if snap['up'] is not None or snap['down'] is not None:
         okk = True
         for key, nm in (('up', 'up_red'), ('down', 'down_red')):
@@ -437,7 +545,13 @@ def _check_purity(fn, p, snap):
                      None if snap['down'] is None else snap['down'].tolist(), np.asarray(p['down_red']).tolist(),
                      ' (one object passed as both)' if snap['same'] else ''))
     a = p['asig']
-    rec_ok = isinstance(a.values, np.ndarray) and _same_bits(a.values, snap['x']) and a.dt == snap['dt']
+    if isinstance(snap['dt'], np.ndarray) or snap['scal']:
+        bad = [nm for nm, v in snap['scal'].items() if not (isinstance(p[nm], np.ndarray) and _same_bits(p[nm], v))]
+        if not _scalar_same(a.dt, snap['dt']):
+            bad.append('dt of the signal')
+        CTX.check(not bad, SCALAR_CLAUSE, lambda: _wit_surface(fn, before, same_red_object=snap['same'], changed=bad),
+                  '%s changed the caller\'s 0-d array argument(s) %s (dt %r -> %r)' % (fn, bad, snap['dt'], a.dt))
+    rec_ok = isinstance(a.values, np.ndarray) and _same_bits(a.values, snap['x']) and _scalar_same(a.dt, snap['dt'])
     tt_ok = _arg_unchanged(p['travel_times'], snap['tt'])
     CTX.check(rec_ok and tt_ok, 'purity.record,travel-times-unchanged',
               lambda: _wit_surface(fn, before, same_red_object=snap['same'], values_after=np.asarray(a.values),
@@ -471,6 +585,7 @@ def _check_surface(fn, args, kwargs, result, snap=None):
         # the reference is computed from the arguments as they were handed in, never from the objects after the call
         p = dict(p, asig=_Rec(snap['x'], snap['dt']), travel_times=snap['tt'], _forms=snap['forms'],
                  same_red_object=snap['same'])
+        p.update(snap['scal'])
         if snap['up'] is not None:
             p['up_red'] = snap['up']
         if snap['down'] is not None:
@@ -557,12 +672,28 @@ _TRIM_DEF = {'trim': False, 'start': False, 's2s_travel_time': 0.0}
 
 def _pre_trim(args, kwargs):
     p = _parse(args, kwargs, _TRIM_NAMES, _TRIM_DEF)
-    return {'values': _copy_arg(p['values']), 'tt': _copy_arg(p['surf2depth_travel_times'])}
+    return {'values': _copy_arg(p['values']), 'tt': _copy_arg(p['surf2depth_travel_times']),
+            'scal': dict((nm, p[nm].copy()) for nm in _TRIM_SCAL if isinstance(p.get(nm), np.ndarray)),
+            'forms': {'npts': _scalar_form(p.get('npts')), 'dt': _scalar_form(p.get('dt')),
+                      'stt': _scalar_form(p['s2s_travel_time']), 'flag': _flag_form(p['trim'])}}
+
+
+_TRIM_SCAL = ('npts', 'dt', 'trim', 'start', 's2s_travel_time')
 
 
 def _post_trim(args, kwargs, result, pre):
     ctx = CTX
     p = _parse(args, kwargs, _TRIM_NAMES, _TRIM_DEF)
+    if pre is not None and pre['scal']:
+        bad = [nm for nm, v in pre['scal'].items() if not (isinstance(p[nm], np.ndarray) and _same_bits(p[nm], v))]
+        q = dict(p, **pre['scal'])
+        ctx.check(not bad, SCALAR_CLAUSE,
+                  lambda: {'fn': 'trim_to_length', 'values2d': np.asarray(pre['values']), 'npts': int(q['npts']),
+                           'travel_times': np.asarray(pre['tt']), 'dt': float(q['dt']), 'trim': bool(q['trim']),
+                           'start': bool(q['start']), 'stt': float(q['s2s_travel_time']), 'scalar_forms': pre['forms'],
+                           'changed': bad},
+                  'trim_to_length changed the caller\'s 0-d array argument(s) %s' % bad)
+        p = q
     if pre is not None:
         okp = _arg_unchanged(p['values'], pre['values']) and _arg_unchanged(p['surf2depth_travel_times'], pre['tt'])
         ctx.check(okp, 'purity.trim-arguments-unchanged',
@@ -583,7 +714,8 @@ def _post_trim(args, kwargs, result, pre):
     got = np.asarray(result)
     wit = lambda: {'fn': 'trim_to_length', 'values2d': values, 'npts': npts,
                    'travel_times': np.atleast_1d(np.asarray(p['surf2depth_travel_times'])), 'dt': dt,
-                   'trim': trim, 'start': start, 'stt': stt, 'got': got}
+                   'trim': trim, 'start': start, 'stt': stt, 'got': got,
+                   'scalar_forms': pre['forms'] if pre is not None else None}
     if not trim and not start:
         ctx.check(got.shape == values.shape and bool(np.array_equal(got, values)), 'trim.identity(no trim,no start)', wit,
                   'without trim/start the array must come back unchanged')
@@ -730,7 +862,7 @@ def _post_join(args, kwargs, result, pre):
 def _pre_join_sig(args, kwargs):
     p = _parse(args, kwargs, ('sig', 'time_shifts', 'jtype'), {'jtype': 'add'})
     try:
-        return {'values': np.array(p['sig'].values), 'dt': p['sig'].dt, 'ts': _copy_arg(p['time_shifts'])}
+        return {'values': np.array(p['sig'].values), 'dt': _copy_arg(p['sig'].dt), 'ts': _copy_arg(p['time_shifts'])}
     except Exception:
         return None
 
@@ -738,7 +870,7 @@ def _pre_join_sig(args, kwargs):
 def _wit_join_sig(p, pre, **extra):
     d = {'fn': 'join_sig_w_time_shift', 'values': np.asarray(pre['values']), 'dt': float(pre['dt']),
          'time_shifts': np.asarray(pre['ts']), 'ts_container': _container_name(p['time_shifts']), 'jtype': p['jtype'],
-         'sig_class': type(p['sig']).__name__}
+         'sig_class': type(p['sig']).__name__, 'dt_form': _scalar_form(pre['dt'])}
     d.update(extra)
     return d
 
@@ -754,7 +886,7 @@ def _post_join_sig(args, kwargs, result, pre):
         ctx.observe('join_sig_w_time_shift: arguments could not be snapshotted (not judged)')
         return
     sig = p['sig']
-    okp = (isinstance(sig.values, np.ndarray) and _same_bits(sig.values, pre['values']) and sig.dt == pre['dt']
+    okp = (isinstance(sig.values, np.ndarray) and _same_bits(sig.values, pre['values']) and _scalar_same(sig.dt, pre['dt'])
            and _arg_unchanged(p['time_shifts'], pre['ts']))
     ctx.check(okp, 'purity.join_sig-arguments-unchanged', lambda: _wit_join_sig(p, pre, purity_only=True),
               'join_sig_w_time_shift changed the signal values / dt or its time_shifts argument')
@@ -876,7 +1008,8 @@ def _exc_surface(fn):
         p = _parse(args, kwargs, _SURF_NAMES, _SURF_DEF)
         a = p['asig']
         try:
-            rec_ok = isinstance(a.values, np.ndarray) and _same_bits(a.values, snap['x']) and a.dt == snap['dt']
+            rec_ok = isinstance(a.values, np.ndarray) and _same_bits(a.values, snap['x']) and _scalar_same(a.dt, snap['dt'])
+            rec_ok = rec_ok and all(isinstance(p[nm], np.ndarray) and _same_bits(p[nm], v) for nm, v in snap['scal'].items())
         except Exception:
             rec_ok = False
         tt_ok = _arg_unchanged(p['travel_times'], snap['tt'])
@@ -888,7 +1021,7 @@ def _exc_surface(fn):
                 red_ok = red_ok and _arg_unchanged(p[nm], snap[seq])
         CTX.check(rec_ok and tt_ok and red_ok, RAISE_CLAUSE, lambda: _raise_wit(fn, exc),
                   '%s raised %s and left %s changed' % (fn, type(exc).__name__,
-                                                        'the record of the signal' if not rec_ok else
+                                                        'the record / dt of the signal or a 0-d scalar argument' if not rec_ok else
                                                         ('the travel-time object' if not tt_ok else 'a reduction object')))
     return onex
 
@@ -898,6 +1031,7 @@ def _exc_trim(args, kwargs, exc, pre):
         return
     p = _parse(args, kwargs, _TRIM_NAMES, _TRIM_DEF)
     okp = _arg_unchanged(p['values'], pre['values']) and _arg_unchanged(p['surf2depth_travel_times'], pre['tt'])
+    okp = okp and all(isinstance(p[nm], np.ndarray) and _same_bits(p[nm], v) for nm, v in pre['scal'].items())
     CTX.check(okp, RAISE_CLAUSE, lambda: _raise_wit('trim_to_length', exc),
               'trim_to_length raised %s and left its values / travel-time argument changed' % type(exc).__name__)
 
@@ -923,7 +1057,7 @@ def _exc_join_sig(args, kwargs, exc, pre):
     p = _parse(args, kwargs, ('sig', 'time_shifts', 'jtype'), {'jtype': 'add'})
     sig = p['sig']
     try:
-        okp = (isinstance(sig.values, np.ndarray) and _same_bits(sig.values, pre['values']) and sig.dt == pre['dt']
+        okp = (isinstance(sig.values, np.ndarray) and _same_bits(sig.values, pre['values']) and _scalar_same(sig.dt, pre['dt'])
                and _arg_unchanged(p['time_shifts'], pre['ts']))
     except Exception:
         okp = False
@@ -968,6 +1102,10 @@ def _build_tt(travel_times, cont):
         return np.float64(tt[0])
     if cont == 'pyint':
         return int(tt[0])
+    if cont.startswith('npint'):
+        return getattr(np, cont.split(':')[1] if ':' in cont else 'int64')(int(tt[0]))
+    if cont == 'npf32':
+        return np.float32(tt[0])
     if cont == 'list':
         return [float(t) for t in tt]
     if cont == 'tuple':
@@ -984,6 +1122,8 @@ def _bool_form(v, form):
         return int(bool(v))
     if form == 'np':
         return np.bool_(bool(v))
+    if form == '0d':
+        return np.array(bool(v))      # mutable: snapshotted by the monitors like any other array
     return bool(v)
 
 
@@ -991,11 +1131,8 @@ def _call_args(c, asig):
     """(args, kwargs) of one call in the case's call style: 'kw', 'pos', 'mixed' or 'omit' (defaults left out)."""
     bf = c.get('bool_form', 'bool')
     nodal, trim, start = _bool_form(c['nodal'], bf), _bool_form(c['trim'], bf), _bool_form(c['start'], bf)
-    stt = c['stt']
-    if c.get('stt_form') == 'int' and stt == 0:
-        stt = 0
-    elif c.get('stt_form') == 'np':
-        stt = np.float64(stt)
+    sform = c.get('stt_form', 'float')
+    stt = _scalar_arg(c['stt'], 'np' if (sform == 'np32' and not _f32_scalars_ok(c)) else sform)
     u, d = c.get('up_red'), c.get('down_red')
     if u is not None and c.get('same_red_object'):
         d = u        # one object for both parameters
@@ -1020,7 +1157,10 @@ def _call_args(c, asig):
 
 
 def _make_sig(eqsig, c, values=None):
-    asig = eqsig.AccSignal(c['values'] if values is None else values, c['dt'])
+    dform = c.get('dt_form', 'float')
+    if dform == 'np32' and not _f32_scalars_ok(c):
+        dform = 'np'
+    asig = eqsig.AccSignal(c['values'] if values is None else values, _scalar_arg(c['dt'], dform))
     if c.get('rec_readonly'):
         asig.values.flags.writeable = False      # an implementation that writes into the record raises instead of corrupting
     return asig
@@ -1034,7 +1174,7 @@ def _case_wit(fn, c, **extra):
          'same_red_object': bool(c.get('same_red_object', False)), 'red_form': None if u is None else _red_form(u),
          'rec_readonly': bool(c.get('rec_readonly', False)), 'call_style': c.get('call_style', 'kw'),
          'bool_form': c.get('bool_form', 'bool'), 'stt_form': c.get('stt_form', 'float'),
-         'values_container': type(c['values']).__name__}
+         'dt_form': c.get('dt_form', 'float'), 'values_container': type(c['values']).__name__}
     if c.get('tt_obj') is not None and isinstance(c['tt_obj'], np.ndarray):
         d['travel_times'] = np.array(c['tt_obj'])      # keeps the dtype of the container
     d.update(extra)
@@ -1260,15 +1400,20 @@ def _direct_trim(eqsig, ctx, c, i=0):
         vals = big[:, ::2]
     tt = _tt_arg(c)
     tt = tt if isinstance(tt, np.ndarray) else taus      # the function divides its travel times: ndarray forms only
+    sf = (i // 7 + i) % 6      # scalar forms (round 5): python / numpy scalars and mutable 0-d arrays
+    forms = {'npts': ['int', 'npint', '0di', 'int', 'npint', 'int'][sf], 'dt': ['float', 'np', '0d', 'float', '0d', 'int'][sf],
+             'stt': ['float', '0d', 'np', 'int', 'npint', '0di'][sf], 'flag': ['bool', 'np', '0d', 'int', 'bool', '0d'][sf]}
+    a_npts, a_dt, a_stt = _scalar_arg(n, forms['npts']), _scalar_arg(c['dt'], forms['dt']), _scalar_arg(c['stt'], forms['stt'])
+    a_trim, a_start = _bool_form(c['trim'], forms['flag']), _bool_form(c['start'], forms['flag'])
     try:
         if i % 3 == 0:
-            eqsig.surface.trim_to_length(vals, n, tt, c['dt'], bool(c['trim']), bool(c['start']), c['stt'])
+            eqsig.surface.trim_to_length(vals, a_npts, tt, a_dt, a_trim, a_start, a_stt)
         else:
-            eqsig.surface.trim_to_length(vals, n, tt, c['dt'], trim=c['trim'], start=c['start'], s2s_travel_time=c['stt'])
+            eqsig.surface.trim_to_length(vals, a_npts, tt, a_dt, trim=a_trim, start=a_start, s2s_travel_time=a_stt)
     except Exception as e:
         ctx.exception('trim.placement', {'fn': 'trim_to_length', 'values2d': np.array(vals), 'npts': n, 'travel_times': np.array(tt),
                                          'dt': c['dt'], 'trim': bool(c['trim']), 'start': bool(c['start']), 'stt': c['stt'],
-                                         'values2d_form': form}, e)
+                                         'values2d_form': form, 'scalar_forms': forms}, e)
 
 
 # ---------------------------------------------------------------------------------------------------- generators
@@ -1401,6 +1546,11 @@ def record_container(rng, x):
     """The same record in another container/dtype (integer forms use most of the dtype's range). -> (container, kind)"""
     r = rng.random()
     n = len(x)
+    if r < 0.05:      # bool-dtype record (rectangular pulses): the library casts kind 'b' to float on purpose
+        xb = x > (np.median(x) if n > 1 else -np.inf)
+        if not np.any(xb):
+            xb[int(rng.integers(n))] = True
+        return (xb, 'bool') if rng.random() < 0.7 else (xb.tolist(), 'list-bool')
     if r < 0.45:
         return x, 'float64'
     if r < 0.55:
@@ -1439,7 +1589,7 @@ def gen_surface_case(rng):
         int(rng.choice([1, 2, 3, 5, 8, 13, 30, 67, 120, 250, 400], p=[.02, .05, .06, .1, .12, .15, .2, .14, .1, .04, .02]))
     x, rcls = draw_record(rng, n)
     tk = str(rng.choice(['all-knife', 'all-half', 'all-frac', 'zero-nodal', 'mixed', 'boundary', 'int-tau', 'awkward-fraction',
-                         'floor-below'], p=[.13, .09, .09, .1, .29, .09, .09, .06, .06]))
+                         'floor-below', 'only-zero'], p=[.13, .09, .09, .1, .25, .09, .09, .06, .06, .04]))
     k = int(rng.choice([1, 2, 3, 4], p=[.3, .3, .25, .15]))
     stt = None
     if tk == 'boundary':
@@ -1487,7 +1637,7 @@ def gen_surface_case(rng):
                 kind = 'half'
             elif tk == 'all-frac':
                 kind = 'long' if rng.random() < 0.5 else 'short'
-            elif tk == 'zero-nodal' and (i == 0 or rng.random() < 0.3):
+            elif tk == 'only-zero' or (tk == 'zero-nodal' and (i == 0 or rng.random() < 0.3)):
                 kind = 'zero'
             else:
                 kind = str(rng.choice(['zero', 'half', 'knife', 'floorknife', 'short', 'long', 'equal'],
@@ -1518,7 +1668,9 @@ def gen_surface_case(rng):
         up = down = None
     elif r < 0.52:
         q = rng.random()
-        if q < 0.15:
+        if q < 0.05:
+            up, down = [(np.int64(1), np.int64(1)), (True, True), (np.True_, np.int32(1))][int(rng.integers(3))]
+        elif q < 0.15:
             up = down = 1                                   # python int
         elif q < 0.3:
             up = np.float32(rng.choice([0.5, 0.75, 0.3, 1.0]))
@@ -1552,15 +1704,18 @@ def gen_surface_case(rng):
     if k == 1:
         opts += ['scalar', 'scalar', 'npfloat']
     if integral:
-        opts += ['int-array', 'int-array', 'int-array', 'list-int', 'list-mixed'] + (['pyint'] if k == 1 else [])
+        opts += ['int-array', 'int-array', 'int-array', 'list-int', 'list-mixed'] + (['pyint', 'npint'] if k == 1 else [])
     if tk == 'int-tau':
         opts += ['int-array'] * 6
     if k > 1 and rng.random() < 0.3:      # explicit orders: ascending / descending (the last entry is then not the maximum)
         taus = sorted(taus, reverse=bool(rng.random() < 0.6))
         tarr = np.array(taus, dtype=float)
     if dtk == 'dyadic' and tk in ('all-half', 'boundary') and max(taus) < 2.0 ** 20 * dt:
-        opts += ['f32-array', 'f32-array']
+        opts += ['f32-array', 'f32-array'] + (['npf32'] if k == 1 else [])
     cont = opts[int(rng.integers(len(opts)))]
+    if cont == 'npint':
+        fits = [d for d in INT_DTYPES if max(taus) <= np.iinfo(d).max]
+        cont = 'npint:' + fits[int(rng.integers(len(fits)))]
     if cont == 'int-array':
         fits = [d for d in INT_DTYPES if max(taus) <= np.iinfo(d).max]
         tt_obj = _as_form(tarr.astype(fits[int(rng.integers(len(fits)))]), str(rng.choice(['ndarray', 'view', 'readonly'])))
@@ -1574,12 +1729,29 @@ def gen_surface_case(rng):
          'up_red': up, 'down_red': down, 'same_red_object': same_obj, 'stt': stt, 'trim': trim, 'start': start,
          'rec_readonly': bool(rng.random() < 0.3),
          'call_style': str(rng.choice(['kw', 'pos', 'mixed', 'omit', 'kw-all'], p=[.4, .2, .15, .15, .1])),
-         'bool_form': str(rng.choice(['bool', 'int', 'np'], p=[.7, .15, .15])),
-         'stt_form': str(rng.choice(['float', 'int', 'np'], p=[.6, .25, .15]))}
+         'bool_form': str(rng.choice(['bool', 'int', 'np', '0d'], p=[.58, .14, .14, .14])),
+         'stt_form': str(rng.choice(['float', 'int', 'np', 'npint', '0d', '0di', 'np32'], p=[.42, .15, .1, .08, .12, .06, .07]))}
+    # scalar forms of the step of the signal and of stt (round 5). float32 scalars only where every quotient is exact (numpy
+    # evaluates python-float / np.float32 in float32): dyadic step, stt a whole number of steps
+    q = stt / dt
+    exact32 = dtk == 'dyadic' and float(np.float32(dt)) == dt and float(np.float32(stt)) == stt and q == int(q) and q < 2.0 ** 20
+    r = rng.random()
+    c['dt_form'] = 'float'
+    if r < 0.08:
+        c['dt_form'] = 'np'
+    elif r < 0.18:
+        c['dt_form'] = '0d'
+    elif r < 0.30 and float(dt) == int(dt):
+        c['dt_form'] = ['int', 'npint', '0di'][int(rng.integers(3))]
+    elif r < 0.40 and exact32:
+        c['dt_form'] = 'np32'
+    if c['stt_form'] == 'np32' and not exact32:
+        c['stt_form'] = 'float'
     cls = 'surface:%s/dt-%s/%s%s%s' % (tk, dtk, 'N' if nodal else 'A', 'T' if trim else '-', 'S' if start else '-')
-    c['forms_cls'] = 'rec-%s|tt-%s%s|red-%s|%s' % (rk, cont, '' if not isinstance(tt_obj, np.ndarray) else ':' + tt_obj.dtype.name,
-                                                   'default' if up is None else _red_form(up) + (':' + up.dtype.name if isinstance(up, np.ndarray) else ''),
-                                                   c['call_style'])
+    c['forms_cls'] = 'rec-%s|tt-%s%s|red-%s|%s|dt-%s|stt-%s|flag-%s' % (
+        rk, cont, '' if not isinstance(tt_obj, np.ndarray) else ':' + tt_obj.dtype.name,
+        'default' if up is None else _red_form(up) + (':' + up.dtype.name if isinstance(up, np.ndarray) else ''),
+        c['call_style'], _scalar_form(_scalar_arg(dt, c['dt_form'])), _scalar_form(_scalar_arg(stt, c['stt_form'])), c['bool_form'])
     return c, cls, rcls
 
 
@@ -2056,10 +2228,10 @@ def _join(eqsig, ctx, values, shifts, jtype, style='kw'):
                                                               jtype='add' if jtype == 'omit' else jtype, style=style), e)
 
 
-def _join_sig(eqsig, ctx, vals, dt, ts, jtype, style='kw', cls='Signal', expect_reject=False):
+def _join_sig(eqsig, ctx, vals, dt, ts, jtype, style='kw', cls='Signal', expect_reject=False, dt_form='float'):
     """One monitored call of the object-level join. jtype 'omit' = default. Forms the library rejects are observations."""
     try:
-        sig = getattr(eqsig, cls)(vals, dt)
+        sig = getattr(eqsig, cls)(vals, _scalar_arg(dt, dt_form))
         if style == 'pos':
             eqsig.join_sig_w_time_shift(sig, ts, 'add' if jtype == 'omit' else jtype)
         elif jtype == 'omit':
@@ -2078,7 +2250,7 @@ def _join_sig(eqsig, ctx, vals, dt, ts, jtype, style='kw', cls='Signal', expect_
             ctx.exception('join_sig==padded+-shifted(int(t/dt))',
                           {'fn': 'join_sig_w_time_shift', 'values': np.asarray(vals), 'dt': dt, 'time_shifts': np.asarray(ts),
                            'ts_container': _container_name(ts), 'jtype': 'add' if jtype == 'omit' else jtype,
-                           'sig_class': cls, 'style': style, 'omit': jtype == 'omit'}, e)
+                           'sig_class': cls, 'style': style, 'omit': jtype == 'omit', 'dt_form': dt_form}, e)
 
 
 def drive_join_sig(eqsig, ctx, rng, vals, sh, i):
@@ -2111,8 +2283,10 @@ def drive_join_sig(eqsig, ctx, rng, vals, sh, i):
     if dt in (1.0, 2.0, 8.0, 1024.0) and tkind == 0 and i % 3 == 0:
         ts_arg = ts.astype([np.int64, np.int32, np.uint16][i % 3 if np.max(ts) < 60000 else 0])     # integral times
     cls = 'AccSignal' if i % 2 else 'Signal'
+    dt_form = ['float', 'np', '0d', 'float', 'int', 'npint', '0di', 'np32' if dkind == 0 else 'np'][(i // 4 + i) % 8]
+    ctx.observe('join_sig dt form %s' % _scalar_form(_scalar_arg(dt, dt_form)))
     for jt, style in (('sub', 'kw'), ('sub', 'pos'), ('add', 'kw'), ('omit', 'kw'), ('add', 'pos'), ('sub', 'kw-all'))[i % 2::2]:
-        _join_sig(eqsig, ctx, vals, dt, ts_arg, jt, style, cls)
+        _join_sig(eqsig, ctx, vals, dt, ts_arg, jt, style, cls, dt_form=dt_form)
     if i % 6 == 0:      # forms the library may reject: list / tuple / scalar-like
         rej = [ts.tolist(), tuple(ts.tolist()), float(ts[0]), np.float64(ts[0])][(i // 6) % 4]
         _join_sig(eqsig, ctx, vals, dt, rej, 'sub', 'kw', cls, expect_reject=True)
@@ -2175,7 +2349,7 @@ def values_container(rng, vals):
 
 
 VALUE_KINDS = ['float64', 'float64-int', 'int64', 'uint8', 'uint16', 'int8', 'int16', 'int32', 'float32', 'float32-huge',
-               'float64-tiny', 'float64-huge', 'special-scale']
+               'float64-tiny', 'float64-huge', 'special-scale', 'bool']
 
 
 def draw_values(rng, n, vk=None):
@@ -2185,6 +2359,10 @@ def draw_values(rng, n, vk=None):
         vk = VALUE_KINDS[int(rng.integers(len(VALUE_KINDS)))]
     if vk == 'float64':
         return rng.normal(size=n), vk
+    if vk == 'bool':      # on / off values: NumPy adds bools with OR and refuses to negate / subtract them
+        v = rng.random(n) < 0.7
+        v[int(rng.integers(n))] = True
+        return v, vk
     if vk == 'special-scale':
         v, suf = gen.special_scale(rng, rng.normal(size=n) + (0.0 if n > 1 else 1.0))
         return (v, 'float64' + (suf or '')) if np.all(np.isfinite(v)) and np.max(np.abs(v)) < 1e305 else (rng.normal(size=n), 'float64')
@@ -2564,7 +2742,7 @@ RAISE_OPS = ['add_series-short', 'add_series-long', 'add_series-one', 'add_signa
              'reset-ragged', 'butter-above-nyquist', 'add_series-list-short']
 REJECT_KINDS = ['red-list', 'red-tuple', 'red-mismatch', 'red-array+scalar', 'tt-empty', 'tt-negative', 'join-negative-shift',
                 'join_sig-list-times', 'join_sig-negative-time', 'put-float-shifts', 'put-empty-shifts', 'trim-list-tt',
-                'join-unknown-jtype', 'red-list-one-object']
+                'join-unknown-jtype', 'red-list-one-object', 'tt-0d', 'red-0d']
 NONFINITE = ['nan', 'inf', '-inf', 'nan-first', 'inf-last']
 
 
@@ -2631,6 +2809,12 @@ def _rejected_call(eqsig, a, s, args):
     if kind == 'red-array+scalar':
         args['up'] = np.array(red[:k])
         return fn(a, tt, up_red=args['up'], down_red=0.5, **kw)
+    if kind == 'tt-0d':
+        args['tt_bad'] = np.array(float(tt[0]))
+        return fn(a, args['tt_bad'], **kw)
+    if kind == 'red-0d':
+        args['up'], args['down'] = np.array(float(red[0])), np.array(float(red[1]))
+        return fn(a, tt, up_red=args['up'], down_red=args['down'], **kw)
     if kind == 'tt-empty':
         args['tt_bad'] = np.array([])
         return fn(a, args['tt_bad'], **kw)
@@ -2723,7 +2907,7 @@ def exec_raise(eqsig, ctx, s):
                   'after the refused / out-of-domain call %s the signal, the travel times or the values differ from before' % s['kind'])
         # the valid call that follows uses the same travel-time object (and the same ndarray reductions where they fit)
         opts = dict(opts, _tt_obj=args['tt'])
-        if isinstance(args.get('up'), np.ndarray) and len(args['up']) == len(args['tt']):
+        if isinstance(args.get('up'), np.ndarray) and args['up'].ndim == 1 and len(args['up']) == len(args['tt']):
             opts['up_red'], opts['down_red'] = args['up'], args['up']
     else:
         for fn in R3_FNS:
@@ -2814,7 +2998,7 @@ def gen_aba_spec(rng, j):
             B['stt'] = 2.0 * dt
     elif variant == 'dt':
         # float32 travel times stay inside the range of validity of the monitor (exact quotients: power-of-two factors only)
-        f32_tt = isinstance(A.get('tt_obj'), np.ndarray) and A['tt_obj'].dtype == np.float32
+        f32_tt = getattr(A.get('tt_obj'), 'dtype', None) == np.float32      # float32 array or np.float32 scalar
         B['dt'] = float(dt * float(rng.choice([2.0, 0.5] if f32_tt else [2.0, 0.5, 1.25])))
     else:
         B = gen_surface_case(rng)[0]
@@ -2991,16 +3175,18 @@ def gen_silent_case(rng, j):
     n = len(c['values'])
     kind = ['silent', 'positive', 'negative', 'silent'][j % 4]
     if kind == 'silent':
-        form = ['float64', 'int64', 'list', 'list-int', 'tuple', 'float32', 'int8', 'readonly'][(j // 4) % 8]
+        form = ['float64', 'int64', 'list', 'list-int', 'tuple', 'float32', 'int8', 'readonly', 'bool'][(j // 4) % 9]
         z = np.zeros(n)
-        vals = {'float64': z, 'int64': z.astype(np.int64), 'list': [0.0] * n, 'list-int': [0] * n, 'tuple': (0.0,) * n,
+        vals = {'bool': np.zeros(n, dtype=bool), 'float64': z, 'int64': z.astype(np.int64), 'list': [0.0] * n, 'list-int': [0] * n, 'tuple': (0.0,) * n,
                 'float32': z.astype(np.float32), 'int8': z.astype(np.int8), 'readonly': _as_form(z, 'readonly')}[form]
     else:
         x = np.abs(_x64(c))
         x = x + (float(np.max(x)) + 1.0) * 10.0 ** rng.uniform(-3, 0)
         x = x if kind == 'positive' else -x
-        form = ['float64', 'list', 'tuple', 'view'][(j // 4) % 4]
-        vals = {'float64': x, 'list': [float(v) for v in x], 'tuple': tuple(float(v) for v in x), 'view': _as_form(x, 'view')}[form]
+        form = ['float64', 'list', 'tuple', 'view', 'bool'][(j // 4) % 5]
+        if form == 'bool' and kind == 'negative':
+            form = 'float64'
+        vals = {'bool': np.ones(n, dtype=bool), 'float64': x, 'list': [float(v) for v in x], 'tuple': tuple(float(v) for v in x), 'view': _as_form(x, 'view')}[form]
     c['values'] = vals
     c['forms_cls'] = 'silent' if kind == 'silent' else 'one-signed'
     return c, 'surface:%s-record(%s)' % (kind, form), kind
@@ -3014,12 +3200,17 @@ def run_silent_shifts(eqsig, ctx, rng, j):
         base = np.zeros(n)
     else:
         base = (np.abs(rng.normal(size=n)) + 0.1) * (1.0 if kind == 'positive' else -1.0)
-    form = ['ndarray', 'list', 'tuple', 'int64', 'list-int', 'uint8'][(j // 3) % 6]
+    form = ['ndarray', 'list', 'tuple', 'int64', 'list-int', 'uint8', 'bool'][(j // 3) % 7]
+    if form == 'bool':
+        base = np.abs(base) > 0
+        if kind == 'negative':
+            form = 'ndarray'
+            base = -base.astype(float)
     if form in ('int64', 'list-int', 'uint8'):
         base = np.round(np.abs(base) * 50) + (0 if kind == 'silent' else 1)
         if kind == 'negative' and form != 'uint8':
             base = -base
-    vals = {'ndarray': base, 'list': [float(v) for v in base], 'tuple': tuple(float(v) for v in base), 'int64': base.astype(np.int64),
+    vals = {'ndarray': base, 'bool': base, 'list': [float(v) for v in base], 'tuple': tuple(float(v) for v in base), 'int64': base.astype(np.int64),
             'list-int': [int(v) for v in base], 'uint8': np.abs(base).astype(np.uint8)}[form]
     ctx.case(core.digest(np.asarray(base), sh, form, kind), nontrivial=kind != 'silent', cls='shift:%s-values(%s)' % (kind, form),
              sample={'fn': 'put x4 + join + join_sig', 'values': base, 'shifts': sh, 'form': form})
@@ -3096,6 +3287,171 @@ def run_round3(eqsig, ctx, rng, quick):
         run_silent_shifts(eqsig, ctx, rng, jj)
 
 
+# ======================================================================================================= audit round 5
+# Checklist items 28-33. Scalar forms (28), bool records (29) and degenerate travel-time sets (30) are drawn by the shared
+# generators above; the two runners below are driven by replayable specs of plain data.
+SETTINGS_CLAUSE = 'settings-unchanged-after-analysis'
+OWNED_CLAUSE = 'result-owned(overwritten;call-again==first)'
+SETTING_KINDS = ['smooth_fa_freqs-ctor', 'smooth_freq_range-ctor', 'response_times-ctor', 'assigned-after', 'all']
+
+
+def gen_settings_spec(rng, j):
+    """User-given settings outside the band of the data: smoothing targets above the Nyquist frequency, response periods
+    below two steps."""
+    n = int(rng.choice([2, 3, 5, 16, 33, 100]))
+    x, rcls = draw_record(rng, n)
+    dt, dtk = draw_dt(rng)
+    nyq = 0.5 / dt
+    return {'fn': 'r5.settings', 'values': x, 'dt': dt, 'kind': SETTING_KINDS[j % len(SETTING_KINDS)],
+            'freqs': nyq * np.array([0.01, 0.3, 1.0, 1.0 + float(rng.uniform(0.01, 2.0)), float(rng.uniform(5, 80))]),
+            'range': [nyq * 1e-3, nyq * float(rng.uniform(1.5, 30))],
+            'periods': dt * np.array([0.5, float(rng.uniform(1.0, 1.99)), 2.0, float(rng.uniform(3, 10)), float(rng.uniform(20, 200))]),
+            'form': ['ndarray', 'list', 'tuple'][(j // len(SETTING_KINDS)) % 3], 'warm': ['cold', 'smooth', 'rs', 'fa', 'vel'][int(rng.integers(5))],
+            'opts': _r3_options(rng, n, dt), 'ts': [0.0, 1.0, float(rng.uniform(0, n))], 'jtype': ['add', 'sub'][j % 2],
+            'record_class': rcls}
+
+
+def _form_of(arr, form):
+    arr = np.asarray(arr, dtype=float)
+    return arr.tolist() if form == 'list' else (tuple(arr.tolist()) if form == 'tuple' else np.array(arr))
+
+
+def _settings(a):
+    out = {}
+    for name in ('smooth_fa_freqs', 'smooth_fa_frequencies', 'response_times', 'label', 'dt', 'npts'):
+        try:
+            v = getattr(a, name)
+            arr = np.asarray(v)
+            out[name] = (type(v).__name__, arr.dtype.str, arr.shape, arr.tobytes())
+        except Exception as e:
+            out[name] = 'raises ' + type(e).__name__
+    return out
+
+
+def exec_settings(eqsig, ctx, s):
+    """Reads must not change settings: after every surface function / join on the object the settings the user gave (also
+    outside the band of the data) read as before the first call and the caller's containers are untouched."""
+    import warnings
+    spec = dict(s)
+    _R3['spec'] = spec
+    x = np.asarray(s['values'], dtype=float)
+    kind, form = s['kind'], s['form']
+    given = {'freqs': _form_of(s['freqs'], form), 'range': _form_of(s['range'], 'tuple' if form == 'tuple' else 'list'),
+             'periods': _form_of(s['periods'], form)}
+    keep = dict((k, _copy_arg(v)) for k, v in given.items())
+    kw = {}
+    if kind in ('smooth_fa_freqs-ctor', 'all'):
+        kw['smooth_fa_freqs'] = given['freqs']
+    if kind == 'smooth_freq_range-ctor':
+        kw['smooth_freq_range'] = given['range']
+    if kind in ('response_times-ctor', 'all'):
+        kw['response_times'] = given['periods']
+    try:
+        with warnings.catch_warnings():
+            warnings.simplefilter('ignore')
+            a = eqsig.AccSignal(x, s['dt'], **kw)
+            if kind == 'assigned-after':
+                a.smooth_fa_frequencies = given['freqs']
+                a.response_times = given['periods']
+                a.label = 'user label'
+    except Exception as e:
+        ctx.observe('round 5: settings %s refused at construction with %s (not judged)' % (kind, type(e).__name__))
+        _R3['spec'] = None
+        return
+    with np.errstate(all='ignore'), warnings.catch_warnings():
+        warnings.simplefilter('ignore')
+        _warm(eqsig, ctx, a, s['warm'], s['opts'], dict(s, _clause=SETTINGS_CLAUSE))
+    before = _settings(a)
+    cc = _r3_case(s['opts'], np.array(a.values), s['dt'])
+    for step, fn in enumerate(R3_FNS + ['join_sig_w_time_shift']):
+        wit = lambda: dict(spec, failed_after=fn)
+        if fn == 'join_sig_w_time_shift':
+            try:
+                eqsig.join_sig_w_time_shift(a, np.asarray(s['ts'], dtype=float) * a.dt, s['jtype'])
+            except Exception as e:
+                ctx.exception('join_sig==padded+-shifted(int(t/dt))', wit(), e)
+        else:
+            _call(eqsig, ctx, fn, cc, asig=a, wit=wit)
+        after = _settings(a)
+        bad = [nm for nm in before if before[nm] != after[nm]]
+        bad += ['caller\'s ' + k for k, v in given.items() if not _arg_unchanged(v, keep[k])]
+        ctx.check(not bad, SETTINGS_CLAUSE, wit, 'after %s the user-given settings read differently: %s' % (fn, bad))
+        if bad:
+            break
+    _R3['spec'] = None
+
+
+def gen_owned_spec(rng, j):
+    which = ['surface', 'put', 'surface', 'join', 'surface', 'join_sig', 'surface', 'trim'][j % 8]
+    if which == 'surface':
+        A = gen_surface_case(rng)[0]
+        if j % 16 < 8 and not A['trim'] and not A['start']:
+            A['trim'] = True
+        return {'fn': 'r5.owned', 'which': which, 'A': _plain_case(A), 'surf_fn': R3_FNS[(j // 8) % 3], 'same_object': bool((j // 2) % 2)}
+    sp = gen_aba_shift_spec(rng, j)
+    sp.update(fn='r5.owned', which=which, variant='none')
+    return sp
+
+
+def exec_owned(eqsig, ctx, s):
+    """A result belongs to the caller: every cell of the first result is overwritten, the call is repeated with the same
+    arguments (and the same signal object), the second result has the values the first one had."""
+    _R3['spec'] = s
+    obj = None
+    try:
+        if s['which'] == 'surface':
+            A = _case_from_plain(s['A'])
+            if s.get('same_object'):
+                obj = _make_sig(eqsig, A)
+            call = lambda: _call(eqsig, ctx, s['surf_fn'], A, asig=obj, wit=lambda: dict(s))
+        else:
+            call = lambda: _aba_shift_call(eqsig, s, False)
+        r1 = call()
+        if r1 is None:
+            _R3['spec'] = None
+            return
+        keep = np.array(r1)
+        try:
+            r1[...] = np.where(keep == 0, 7.5, -3.0 * keep)
+        except (ValueError, TypeError) as e:
+            ctx.observe('round 5: the result cannot be written to (%s); not judged' % type(e).__name__)
+            _R3['spec'] = None
+            return
+        r2 = call()
+    except Exception as e:
+        ctx.exception(OWNED_CLAUSE, dict(s), e)
+        _R3['spec'] = None
+        return
+    if r2 is not None:
+        ctx.check(np.shape(r2) == keep.shape and bool(np.array_equal(r2, keep, equal_nan=True)) and r2 is not r1
+                  and not _shares(np.asarray(r2), r1), OWNED_CLAUSE, lambda: dict(s),
+                  '%s: after the first result was overwritten the same call returns other values (or the same memory)'
+                  % (s.get('surf_fn') or s['which']))
+    _R3['spec'] = None
+
+
+def run_round5(eqsig, ctx, rng, quick):
+    sh, ns = ctx.shard, ctx.nshards
+
+    def reps(nq, nt):
+        return (nq if quick else nt) // ns + 1
+    for j in range(reps(240, 4000)):
+        jj = j + 3 * sh
+        s = gen_settings_spec(rng, jj)
+        ctx.case(core.digest(s['values'], s['dt'], s['kind'], s['form'], s['warm'], s['opts']['travel_times']),
+                 nontrivial=bool(np.any(s['values'] != 0)), cls='object:settings/%s' % s['kind'],
+                 sample={'fn': 'user-given settings', 'n': len(s['values']), 'kind': s['kind'], 'form': s['form'], 'warm': s['warm']})
+        exec_settings(eqsig, ctx, s)
+        _R3['spec'] = None
+    for j in range(reps(640, 11000)):
+        jj = j + 3 * sh
+        s = gen_owned_spec(rng, jj)
+        ctx.case(core.digest(jj, s['which'], np.asarray(s['A']['values'], dtype=float) if s['which'] == 'surface' else np.asarray(s['values'], dtype=float)),
+                 nontrivial=True, cls='owned:%s' % s['which'])
+        exec_owned(eqsig, ctx, s)
+        _R3['spec'] = None
+
+
 def run_shard(ctx):
     eqsig = core.import_eqsig()
     install(ctx)
@@ -3137,6 +3493,8 @@ def run_shard(ctx):
         run_big_product(eqsig, ctx, rng, ctx.shard)
     # -- audit round 3: object protocols, attribute assignment, operations that raise, A;B;A, parameter edges, silent records
     run_round3(eqsig, ctx, rng, quick)
+    # -- audit round 5: user-given settings survive the analyses; an overwritten result does not come back
+    run_round5(eqsig, ctx, rng, quick)
     # -- shifts: exhaustive small vectors -----------------------------------------------------------------------------
     maxlen = 3 if quick else 4
     idx = 0
@@ -3150,8 +3508,10 @@ def run_shard(ctx):
             if min(vec) >= 0 and idx % 3 == 0:
                 sh = sh.astype(np.uint8)
             for n in (1, 2, 4):
-                vsel = idx % 6
-                if vsel < 2:
+                vsel = idx % 7
+                if vsel == 6:
+                    vals = np.array([True, True, False, True][:n])
+                elif vsel < 2:
                     vals = np.arange(1.0, n + 1.0) * (1 if vsel else -1.5)
                 elif vsel == 2:
                     vals = np.array([200, 150, 255, 101][:n], dtype=np.uint8)
@@ -3221,8 +3581,11 @@ def _reform(w):
     if isinstance(u, np.ndarray):
         w['up_red'] = _as_form(u, rf)
         w['down_red'] = _as_form(d, rf) if isinstance(d, np.ndarray) else d
-    elif u is not None and rf in ('np.float32', 'np.float64'):
-        w['up_red'], w['down_red'] = getattr(np, rf[3:])(u), getattr(np, rf[3:])(d)
+    elif u is not None and rf is not None and rf.startswith('np.'):
+        tp = np.bool_ if rf == 'np.bool' else getattr(np, rf[3:])
+        w['up_red'], w['down_red'] = tp(u), tp(d)
+    elif u is not None and rf == 'bool':
+        w['up_red'], w['down_red'] = bool(u), bool(d)
     vc = w.get('values_container')
     if vc == 'list':
         w['values'] = np.asarray(w['values']).tolist()
@@ -3293,6 +3656,12 @@ def replay(w):
     elif fn == 'r3.aba-shift':
         exec_aba_shift(eqsig, ctx, w)
         _R3['spec'] = None
+    elif fn == 'r5.settings':
+        exec_settings(eqsig, ctx, w)
+        _R3['spec'] = None
+    elif fn == 'r5.owned':
+        exec_owned(eqsig, ctx, w)
+        _R3['spec'] = None
     elif fn == 'trim_to_length':
         vals = np.asarray(w['values2d'])
         form = w.get('values2d_form', 'ndarray')
@@ -3305,9 +3674,12 @@ def replay(w):
             big = np.zeros((vals.shape[0], 2 * vals.shape[1]), dtype=vals.dtype)
             big[:, ::2] = vals
             vals = big[:, ::2]
+        sfm = w.get('scalar_forms') or {}
         try:
-            eqsig.surface.trim_to_length(vals, int(w['npts']), np.asarray(w['travel_times']), w['dt'], trim=w['trim'],
-                                         start=w['start'], s2s_travel_time=w['stt'])
+            eqsig.surface.trim_to_length(vals, _scalar_arg(int(w['npts']), sfm.get('npts', 'int')), np.asarray(w['travel_times']),
+                                         _scalar_arg(w['dt'], sfm.get('dt', 'float')), trim=_bool_form(w['trim'], sfm.get('flag', 'bool')),
+                                         start=_bool_form(w['start'], sfm.get('flag', 'bool')),
+                                         s2s_travel_time=_scalar_arg(w['stt'], sfm.get('stt', 'float')))
         except Exception as e:
             ctx.exception('trim.placement', w, e)
     elif fn == 'put_array_in_2d_array':
@@ -3318,7 +3690,7 @@ def replay(w):
         tc = w.get('ts_container', 'ndarray')
         ts = ts.tolist() if tc == 'list' else (tuple(ts.tolist()) if tc == 'tuple' else _as_form(ts, tc))
         _join_sig(eqsig, ctx, np.asarray(w['values']), w['dt'], ts, 'omit' if w.get('omit') else w.get('jtype', 'add'),
-                  w.get('style', 'kw'), w.get('sig_class', 'Signal'))
+                  w.get('style', 'kw'), w.get('sig_class', 'Signal'), dt_form=w.get('dt_form', 'float'))
     elif fn == 'join_values_w_shifts':
         vals, sh = _shift_args(w)
         _join(eqsig, ctx, vals, sh, w.get('jtype', 'add'), style=w.get('style', 'kw'))
